@@ -1,6 +1,7 @@
 (* C05: hypotheses of the theorems are satisfiable; witness of the unfixed test_pvalue *)
 From Coq Require Import List ZArith Bool Reals Lra.
-From VV Require Import Lib.Base Lib.B64 C06.LibF C05.Model C05.Proofs C05.Laws.
+From Flocq Require Import Core.Core IEEE754.BinarySingleNaN.
+From VV Require Import Lib.Base Lib.B64 C06.LibF C05.Model C05.Proofs C05.Laws C05.Rounding C05.Symmetry C05.Monotone.
 Import ListNotations.
 
 Definition f53 := of_bits 4617653287933653811.    (* 5.3  *)
@@ -50,4 +51,18 @@ Proof.
   - intros x y Hx Hxy. apply Rinv_lt_contravar; [|lra].
     apply Rmult_lt_0_compat; lra.
   - field.
+Qed.
+
+(* every intermediate value of the docstring example is finite *)
+Example doc_example_all_finite : all_finite (env_of f53 f02 f525 f008) t_expr = true.
+Proof. vm_compute. reflexivity. Qed.
+
+(* hypotheses of never_improves: shrinking the error 0.2 of the docstring example to 0 *)
+Example never_improves_hypotheses :
+  patched f53 fzero f525 f008 = false /\
+  all_finite (env_of f53 fzero f525 f008) t_expr = true /\
+  (Rabs (B2R fzero) <= Rabs (B2R f02))%R.
+Proof.
+  split; [vm_compute; reflexivity|]. split; [vm_compute; reflexivity|].
+  change (B2R fzero) with 0%R. rewrite Rabs_R0. apply Rabs_pos.
 Qed.
